@@ -486,6 +486,13 @@ func (e *Env) call(x *ECall) SVal {
 	case "flag":
 		need(2)
 		return cv(Ite(e.boolean(args[0]), e.cond(args[1]), BVLit(0)))
+	case "bvdec":
+		// c - 1 on the 32-bit Condition (wraps at zero, as Go does)
+		need(1)
+		return cv(app(SBV, "bvsub", e.cond(args[0]), BVLit(1)))
+	case "bvint":
+		need(1)
+		return iv(app(SInt, "bv2nat", e.cond(args[0])))
 	case "writable":
 		need(1)
 		return bv(Ge(e.integer(args[0]), IntLit(GEND)))
